@@ -34,6 +34,12 @@ func RandomHistories(w *WorldJSON, seed int64, n, depth int, routers []string, f
 			if rng.Intn(3) == 0 {
 				cfg.OIDCErrs = true
 			}
+			if rng.Intn(2) == 0 {
+				cfg.LiveRT = true
+			}
+			if rng.Intn(4) == 0 {
+				cfg.NoKeyUse = true
+			}
 			if focus == "logout" && rng.Intn(2) == 0 {
 				cfg.Dyn = true
 			}
@@ -96,7 +102,7 @@ func RandomHistories(w *WorldJSON, seed int64, n, depth int, routers []string, f
 				if fm := faultMethods[op]; len(fm) > 0 && (rng.Intn(10) == 0 || ((focus == "faults" || focus == "authorize") && rng.Intn(3) == 0)) {
 					// C10: a storage call fails while this request is served
 					args["fault"] = fm[rng.Intn(len(fm))]
-					args["faultKind"] = []string{"error", "oidc", "oidc"}[rng.Intn(3)]
+					args["faultKind"] = []string{"error", "oidc", "oidc", "typednil"}[rng.Intn(4)]
 				}
 				emit(op, args)
 			}
